@@ -170,7 +170,7 @@ BASE_VARIANTS = [
 
 
 def gen_file_case(rng, lookalike=False):
-    base = rng.weighted([(BASE_VARIANTS[0], 40), (BASE_VARIANTS[1], 25), (BASE_VARIANTS[2], 10), (BASE_VARIANTS[3], 8), (BASE_VARIANTS[4], 17)])
+    base = rng.weighted([(BASE_VARIANTS[0], 42), (BASE_VARIANTS[1], 28), (BASE_VARIANTS[2], 10), (BASE_VARIANTS[3], 2), (BASE_VARIANTS[4], 18)])
     entries = [{"name": k, "raw": v} for k, v in base]
     n = rng.range(1, 6)
     names = [f"p{i}" for i in range(n)]
@@ -184,11 +184,32 @@ def gen_file_case(rng, lookalike=False):
         entries.append({"name": "extra_list", "raw": {"l": [rng.choice([1, {"f": "inf"}, None, "", {"u": 0x20}]) for _ in range(rng.range(0, 3))]}})
     if rng.chance(10):
         entries.append({"name": "extra_scalar", "raw": rng.choice([{"f": "inf"}, "", "inf", 2 ** 70, {"u": 0x20}, None, {"f": [3, 1]}])})
-    return {"k": "file", "entries": entries + forms}
+    sets = []
+    for f in forms:
+        if rng.chance(22):
+            t = f["tmpl"]
+            if t in ("string_parameter", "file_parameter"):
+                v = rng.choice(uipv.LOOKALIKE_STRINGS + ["hello", "Points_A"])
+            elif t == "integer_parameter":
+                v = rng.choice([5, -1, 2 ** 40, 2 ** 70, 10 ** 31, None])
+            elif t == "float_parameter":
+                v = rng.choice([{"f": [3, 1]}, {"f": "inf"}, {"f": "-inf"}, {"f": [1, 1074]}, None])
+            elif t == "bool_parameter":
+                v = rng.chance(50)
+            elif t in ("object_parameter", "group_parameter"):
+                v = rng.choice([{"e": 0x20, "k": "ent"}, {"e": 0x21, "k": "ent"}, {"u": 0x21}, None])
+            elif t == "data_value_parameter":
+                v = rng.choice([{"e": 0x30, "k": "ent"}, {"f": [3, 1]}, 7, {"u": 0x31}])
+            elif t == "range_label_template":
+                v = rng.choice([{"l": [{"f": "-inf"}, {"f": [3, 1]}]}, {"l": [1, 2]}, None])
+            else:
+                continue
+            sets.append([f["name"], v])
+    return {"k": "file", "entries": entries + forms, "sets": sets}
 
 
-def witness_file(value_entry):
-    return {"k": "file", "entries": [{"name": "title", "raw": "T"}, {"name": "geoh5", "raw": {"w": "WORLD"}}, value_entry]}
+def witness_file(value_entry, sets=()):
+    return {"k": "file", "entries": [{"name": "title", "raw": "T"}, {"name": "geoh5", "raw": {"w": "WORLD"}}, value_entry], "sets": [list(x) for x in sets]}
 
 
 def generate(rng, tier):
@@ -296,6 +317,7 @@ def drive_one(case, work):  # noqa: C901
     except uipv.NotExpressible as e:
         return {"inexpressible": str(e), "world_path": wpath}
     ws.close()
+    os.chdir(str(work))          # a "*.geoh5" string read back as a workspace creates that file: keep it inside the work dir
     out_path = os.path.join(str(work), "c14.ui.json")
 
     def enabled_states(u):
@@ -316,8 +338,15 @@ def drive_one(case, work):  # noqa: C901
         d0 = stage("data0", lambda: ifile.data)
         if "error" in obs:
             return obs
+        for name, v in case.get("sets", []):
+            stage("set", lambda name=name, v=v: ifile.set_data_value(name, _dec(v, work, wpath)))
+            if "error" in obs:
+                return obs
+        d0 = ifile.data
         obs["data0"] = enc(d0, work)
         obs["ui0"] = enc(ifile.ui_json, work)
+        from geoh5py.ui_json.utils import flatten
+        obs["reflat0"] = enc(flatten(ifile.ui_json), work)
         obs["enabled0"] = enabled_states(ifile.ui_json)
         stage("write", lambda: ifile.write_ui_json(name="c14", path=str(work)))
         if "error" in obs:
@@ -396,12 +425,13 @@ def case_term(case, obs):
             return f"res_same ({FN_COQ[fn]} {a0}) {r}"
         # file
         ui_in = coq(obs["ui_in"])
+        sets = "[" + "; ".join(f"({coq(n)}, {coq(_subst_wp(v, wpath))})" for n, v in case.get("sets", [])) + "]"
         if "error" in obs:
             e = uipv.EXN_COQ.get(obs["error"])
             if e is None:
                 return "false"
-            return f"match round_trip {FUEL} W0 {ui_in} with Raise e => exn_eqb e {e} | Ok _ => false end"
-        return (f"match round_trip {FUEL} W0 {ui_in} with Raise _ => false | Ok t => "
+            return f"match round_trip {FUEL} W0 {ui_in} {sets} with Raise e => exn_eqb e {e} | Ok _ => false end"
+        return (f"match round_trip {FUEL} W0 {ui_in} {sets} with Raise _ => false | Ok t => "
                 f"pv_same (t_ui0 t) {coq(obs['ui0'])} && pv_same (t_data0 t) {coq(obs['data0'])} && pv_same (t_ui_written t) {coq(obs['ui_written'])} "
                 f"&& pv_same (t_json t) {coq(obs['json'])} && pv_same (t_ui1 t) {coq(obs['ui1'])} && pv_same (t_data1 t) {coq(obs['data1'])} end")
     except uipv.NotExpressible:
@@ -482,27 +512,54 @@ def oracle(case, obs):
     if "inexpressible" in obs and "data0" not in obs:
         return []
     stage = obs.get("error_stage")
-    if stage in ("construct", "data0"):
+    if stage in ("construct", "data0", "set"):
         return []          # the input itself is refused: not a ui.json the property speaks about
+    ui_in = obs.get("ui_in")
+    if ui_in is not None and not jhas(ui_in, "geoh5"):
+        return []          # every ui.json has the (required) geoh5 parameter
     d0 = obs.get("data0")
     atoms0 = list(_all_atoms(d0)) if d0 is not None else []
     kinds = [k for k in (collision_kind(a) for a in atoms0) if k]
+    ui0 = obs.get("ui0")
+    none_bool = ui0 is not None and any(is_jdict(f) and any(jhas(f, m) and jget(f, m) is None for m in ("enabled", "main", "optional"))
+                                        for _, f in ui0["d"])
     if stage in ("write", "read", "data1"):
         key = f"{stage}-crash-{obs.get('error')}"
-        if stage in ("read", "data1") and kinds and any(k != "nan" for k in kinds):
+        if stage in ("read", "data1") and obs.get("error") == "JSONParameterValidationError" and none_bool:
+            key = "none-valued-bool-member-unreadable"
+        elif stage in ("read", "data1") and kinds and any(k != "nan" for k in kinds):
             key = [k for k in kinds if k != "nan"][0]
         return [{"key": key, "what": f"{stage} raised {obs.get('error')}: {obs.get('msg')}"}]
     d1 = obs.get("data1")
     if d1 is None:
         return fails
     if obs.get("nonfinite_token"):
-        fails.append({"key": "nonfinite-json-token", "what": "the file on disk contains Infinity / NaN, which is not JSON"})
-    m0 = {k: v for k, v in d0["d"]}
-    m1 = {k: v for k, v in d1["d"]}
+        nested = any(isinstance(x, dict) and ("l" in x or "t" in x) and any(isinstance(y, dict) and y.get("f") in ("inf", "-inf", "nan", "npnan")
+                                                                              for y in _all_atoms(x))
+                     for a in _containers(obs.get("ui_written")) for x in (a.get("l") or a.get("t") or []))
+        fails.append({"key": "nonfinite-json-token-nested-list" if nested else "nonfinite-json-token",
+                      "what": "the file on disk contains Infinity / NaN, which is not JSON"})
+    no_ws = jget(ui_in, "geoh5") is None if ui_in is not None else False
+
+    def demoted(j):
+        if no_ws and isinstance(j, dict) and "e" in j:
+            return {"u": j["e"]}
+        if not no_ws and isinstance(j, dict) and "u" in j and j["u"] in uipv.WORLD["ents"]:
+            return {"e": j["u"], "k": uipv.WORLD["ents"][j["u"]]}      # identifiers are promoted to the workspace's entities
+        if isinstance(j, dict) and ("l" in j or "t" in j):
+            return {"l": [demoted(x) for x in (j.get("l") or j.get("t") or [])]}
+        return j
+    m0 = {k: demoted(v) for k, v in d0["d"]}
+    m1 = {k: demoted(v) for k, v in d1["d"]}
+    stable = {k: demoted(v) for k, v in obs.get("reflat0", d0)["d"]}
+    # an enabled form that holds None is switched off by write_ui_json (and its group with it): outside the domain
+    valueless_enabled = ui0 is not None and any(is_jdict(f) and jget(f, "enabled") is True and m0.get(name) is None for name, f in ui0["d"])
     if list(m0) != list(m1):
         fails.append({"key": "parameters-differ", "what": f"parameters before {list(m0)} after {list(m1)}"})
-    else:
+    elif not valueless_enabled:
         for name in m0:
+            if not _same(stable.get(name), m0[name]):
+                continue    # loading itself switched this parameter off (member of a disabled group): compare from the loaded state on
             if not _same(m0[name], m1[name]):
                 ks = [k for k in (collision_kind(a) for a in _all_atoms(m0[name])) if k]
                 if "nan" in ks:
@@ -510,14 +567,35 @@ def oracle(case, obs):
                 key = ks[0] if ks else "value-not-round-tripped"
                 fails.append({"key": key, "what": f"parameter {name}: {m0[name]!r} before, {m1[name]!r} after the round trip"})
                 break
-    e0, e1 = obs.get("enabled0", {}), obs.get("enabled1", {})
-    for name, en in e0.items():
-        if name in e1 and e1[name] != en:
-            if en and m0.get(name) is None:
-                continue        # an enabled form without a value: switched off by write_ui_json (outside the domain, see ASSUMPTIONS)
-            fails.append({"key": "enabled-state-changed", "what": f"form {name}: enabled {en} before, {e1[name]} after"})
-            break
+        e0, e1 = obs.get("enabled0", {}), obs.get("enabled1", {})
+        for name, en in e0.items():
+            if name in e1 and e1[name] != en:
+                if _group_off(ui0, name):
+                    continue    # the member's state is governed by its (switched-off) group
+                fails.append({"key": "enabled-state-changed", "what": f"form {name}: enabled {en} before, {e1[name]} after"})
+                break
     return fails
+
+
+def _group_off(ui, name):
+    f = jget(ui, name)
+    if not (is_jdict(f) and jhas(f, "group")):
+        return False
+    g = jget(f, "group")
+    for _, m in ui["d"]:
+        if is_jdict(m) and jhas(m, "group") and jget(m, "group") == g and jhas(m, "groupOptional"):
+            return jget(m, "enabled", True) is False
+    return False
+
+
+def _containers(j):
+    if isinstance(j, dict) and ("l" in j or "t" in j):
+        yield j
+        for x in (j.get("l") or j.get("t") or []):
+            yield from _containers(x)
+    elif isinstance(j, dict) and "d" in j:
+        for _, x in j["d"]:
+            yield from _containers(x)
 
 
 def nontrivial(case, obs):
